@@ -2,7 +2,7 @@
    bdsp_width, dcsp_width, the start levels and the allocation count are REGENERATED FROM THE SOURCE (Gen_width);
    the closed forms on the right-hand sides are the property's. *)
 From Coq Require Import ZArith Lia List.
-From QV Require Import GenLib Gen_width WidthGen.
+From QV Require Import GenLib Gen_width WidthGen WidthBounds.
 Open Scope Z_scope.
 
 (* declared width = the property's formula *)
@@ -40,4 +40,17 @@ Print Assumptions C11_default_split.
 
 Example ex_widths : bdsp_width 4 2 = 11 /\ alloc_width 4 (bdsp_start_level 4 2) = 11 /\ dcsp_width 16 = 15
                     /\ alloc_width 4 (dcsp_start_level 4) = 15.
+Proof. vm_compute. auto. Qed.
+
+(* the declared width interpolates between pure top-down (n qubits) and the full tree (2^n - 1 qubits) ... *)
+Theorem C11_bdsp_width_bounds : forall n s, 1 <= s <= n -> n <= bdsp_width n s <= 2 ^ n - 1.
+Proof. exact bdsp_width_bounds. Qed.
+Print Assumptions C11_bdsp_width_bounds.
+
+(* ... and never grows when the split level is raised by one *)
+Theorem C11_bdsp_width_step : forall n s, 1 <= s < n -> bdsp_width n (s + 1) <= bdsp_width n s.
+Proof. exact bdsp_width_step. Qed.
+Print Assumptions C11_bdsp_width_step.
+
+Example ex_bdsp_bounds : bdsp_width 5 1 = 31 /\ bdsp_width 5 3 = 15 /\ bdsp_width 5 5 = 5.
 Proof. vm_compute. auto. Qed.
